@@ -21,7 +21,7 @@ LEVEL = "exploration"
 ENGINE = "codec"
 TECHNIQUE = "property-based testing (Hypothesis) against an independent model of bind() and of the CompositeType key layout"
 RULE = ("Hypothesis draws 1-6 bind markers (distinct column names, occasionally a repeated non-key name) typed from "
-        "{int, bigint, text, blob, uuid, boolean, timestamp, double, varint, list<int>, set<text>, map<text,int>, "
+        "{int, bigint, text, blob, uuid, boolean, timestamp, double, varint, list<int>, list<text>, map<text,int>, "
         "tuple<int,text>}, a partition key of 1-3 of those columns in an order independent of the bind order (or with one "
         "component absent from the statement), the way the routing indexes reach the driver (pk_indexes of a v4+ PREPARED "
         "response, table metadata for v1-3, or unknown table), a complete assignment (non-key values may be None), and a "
@@ -33,6 +33,7 @@ ASSUMPTIONS = [
     "token reference is spec.murmur3.murmur3_token (Cassandra's Murmur3Partitioner, transcribed)",
     "cluster metadata is a real cassandra.metadata.Metadata populated with KeyspaceMetadata/TableMetadata/ColumnMetadata objects, as Session.prepare passes it",
     "on protocol v1-3 a short positional list that still covers every partition-key position may either be rejected or be bound as the shorter list (the pinned unit tests accept the latter); it must never produce UNSET_VALUE",
+    "no set-typed markers: a plain Python set is written in iteration order and Cassandra sorts on receipt, so byte equality is not demanded there (C01/C02 cover sets)",
     "partition-key values are never None (Cassandra rejects null key components; the statement does not cover them)",
 ]
 
@@ -41,7 +42,7 @@ PVS = [1, 2, 3, 4, 5, 6, 0x41, 0x42]
 TYPES = {
     "int": V.T("int"), "bigint": V.T("bigint"), "text": V.T("text"), "blob": V.T("blob"), "uuid": V.T("uuid"),
     "boolean": V.T("boolean"), "timestamp": V.T("timestamp"), "double": V.T("double"), "varint": V.T("varint"),
-    "list<int>": V.t_list(V.T("int")), "set<text>": V.t_set(V.T("text")),
+    "list<int>": V.t_list(V.T("int")), "list<text>": V.t_list(V.T("text")),
     "map<text,int>": V.t_map(V.T("text"), V.T("int")), "tuple<int,text>": V.t_tuple([V.T("int"), V.T("text")]),
 }
 KEY_TYPES = ["int", "bigint", "text", "blob", "uuid", "boolean", "timestamp", "varint", "tuple<int,text>"]
